@@ -1,7 +1,7 @@
 (* Tables and comparison for correspondence runs of Model/Build.v. *)
 From Coq Require Import List Arith Bool PeanoNat.
 Import ListNotations.
-Require Import TL.Model.Core TL.Model.CoreTables TL.Model.Build.
+Require Import TL.Model.Core TL.Model.CoreTables TL.Model.Build TL.Proofs.BuildLemmas.
 
 Fixpoint lookup_ty {A} (k : ty) (t : list (ty * A)) : option A :=
   match t with [] => None | (k', a) :: r => if ty_eqb k k' then Some a else lookup_ty k r end.
@@ -21,3 +21,11 @@ Definition mech_spec_agree (rt : runtime) (E : env) (orders : list (ty * list no
     | Raise _, Raise _ => true
     | _, _ => false
     end end.
+
+(* the hypotheses of the routing theorem (C05_build_routes), decided on every observed node order:
+   every constructor's lookups succeed, for both directions, and the last node is the annotation's own *)
+Definition orders_hyps_ok (E : env) (noops : list nat) (orders : list (ty * list node)) : bool :=
+  let nl := fun s => existsb (Nat.eqb s) noops in
+  forallb (fun p =>
+    order_ok E true nl [] (snd p) && order_ok E false nl [] (snd p) &&
+    match rev (snd p) with root :: _ => ty_eqb (norm (ntype root)) (norm (fst p)) | [] => false end) orders.
